@@ -427,6 +427,26 @@ def car_check(prefix):
         out = voltage.car(x.copy(), operator="average")
         if np.max(np.abs(np.mean(out, axis=0))) > 1e-12:
             seen.setdefault("car:average", "average referencing leaves a non-zero mean")
+        # ... and with the whole option dictionary the destriper hands to its spatial filter (gain-control length, padding, taper, high-pass settings are the k-filter's
+        # business: referencing takes them and still leaves a zero median / mean in every group) - the channels here have very different amplitude envelopes
+        if sum(rest) % 3 == 0:
+            kk = {"ntr_pad": 2, "ntr_tap": 0, "lagc": 3, "butter_kwargs": {"N": 3, "Wn": 0.1, "btype": "highpass"}}
+            for op in ("median", "average"):
+                try:
+                    out = voltage.car(x.copy(), collection=g.copy(), operator=op, **kk)
+                except Exception as e:
+                    seen.setdefault("car:%s:destripe-options:exc" % op, "car(..., %r) raised %s: %s" % (kk, type(e).__name__, e))
+                    continue
+                ntr += 1
+                plain = voltage.car(x.copy(), collection=g.copy(), operator=op)
+                for grp in np.unique(g):
+                    rows = out[g == grp]
+                    stat = np.median(rows, axis=0) if op == "median" else np.mean(rows, axis=0)
+                    if np.max(np.abs(stat)) > 1e-12:
+                        seen.setdefault("car:%s:destripe-options:group-not-zero" % op, "grouping %r operator %s with the destriper's option dictionary %r: group %d has %s %r after referencing"
+                                        % (g.tolist(), op, kk, grp, op, stat.round(4).tolist()[:4]))
+                if not np.allclose(out, plain, rtol=0, atol=1e-12):
+                    seen.setdefault("car:%s:destripe-options:differs" % op, "grouping %r operator %s: the result with the destriper's option dictionary differs from plain referencing" % (g.tolist(), op))
     return Res(list(seen.items()), o="car", tr=ntr)
 
 
